@@ -94,6 +94,9 @@ const (
 	E_B64DecodeSafe = 139
 	E_DestAddresses = 140
 	E_RouterAddrAccessors = 141
+	E_AliasBytesChange = 150
+	E_NewOfflineSignature = 160
+	E_NewKeysAndCertFromParts = 161
 )
 
 var entryNames = map[int]string{
@@ -189,4 +192,7 @@ var entryNames = map[int]string{
 	139: "B64DecodeSafe",
 	140: "DestAddresses",
 	141: "RouterAddrAccessors",
+	150: "AliasBytesChange",
+	160: "NewOfflineSignature",
+	161: "NewKeysAndCertFromParts",
 }
